@@ -124,19 +124,40 @@ Definition main_loop (l : list (N * list (N * N))) (st : fibst) : fibst * list c
     let st2 := if ok then {| f_prefixes := f_prefixes st1; f_names := f_names st1; f_mark := sadd (fst kv) (f_mark st1) |} else st1 in
     (st2, snd acc ++ cs)) l (st, []).
 
+(* Go iterates maps in an arbitrary order. The two map iterations of fibUpdate (`range fibEntries`, and
+   `range fib.prefixes` in RemoveUnmarked) therefore take an explicit priority list: keys listed in `ord` come first, in
+   that order, the remaining ones follow. Every order is obtained for some `ord`; the theorems quantify over it. *)
+Fixpoint reorder {A} (ord : list N) (l : list (N * A)) : list (N * A) :=
+  match ord with
+  | [] => l
+  | k :: ord' =>
+      match alookup k l with
+      | Some v => (k, v) :: reorder ord' (aremove k l)
+      | None => reorder ord' l
+      end
+  end.
+
+Fixpoint reorder_keys (ord : list N) (ks : list N) : list N :=
+  match ord with
+  | [] => ks
+  | k :: ord' => if mem k ks then k :: reorder_keys ord' (srem k ks) else reorder_keys ord' ks
+  end.
+
 (* RemoveUnmarked: every key of fib.prefixes that is not marked and has a name gets UpdateH(.., nil) *)
-Definition remove_unmarked (st : fibst) : fibst * list cmd :=
+Definition remove_unmarked_ord (ord : list N) (st : fibst) : fibst * list cmd :=
   fold_left (fun (acc : fibst * list cmd) (k : N) =>
     let st0 := fst acc in
     if negb (mem k (f_mark st0)) && mem k (f_names st0) then
       let '(st1, cs, _) := update_h k [] st0 in (st1, snd acc ++ cs)
-    else acc) (map fst (f_prefixes st)) (st, []).
+    else acc) (reorder_keys ord (map fst (f_prefixes st))) (st, []).
 
-Definition fib_update (t : tables) (st : fibst) : fibst * list cmd :=
+Definition fib_update_ord (ord1 ord2 : list N) (t : tables) (st : fibst) : fibst * list cmd :=
   let st0 := {| f_prefixes := f_prefixes st; f_names := f_names st; f_mark := [] |} in   (* UnmarkAll *)
-  let (st1, c1) := main_loop (build_entries t) st0 in
-  let (st2, c2) := remove_unmarked st1 in
+  let (st1, c1) := main_loop (reorder ord1 (build_entries t)) st0 in
+  let (st2, c2) := remove_unmarked_ord ord2 st1 in
   (st2, c1 ++ c2).
+
+Definition fib_update (t : tables) (st : fibst) : fibst * list cmd := fib_update_ord [] [] t st.
 
 (* ---- the reference route table of the forwarder: (name, face) -> cost, origin NlsrOrigin ---- *)
 Definition rtable := list ((N * N) * N).
@@ -185,14 +206,14 @@ Record sys := { s_tab : tables; s_fib : fibst; s_rt : rtable }.
 
 Inductive fev :=
 | SetTables (rib : list ribent) (nbr : list (N * N)) (pfx : list (N * list N))   (* any change of any table *)
-| FibUpdate.
+| FibUpdate (ord1 ord2 : list N).                                                 (* fibUpdate, any map iteration orders *)
 
 Definition fstep (s : sys) (e : fev) : sys :=
   match e with
   | SetTables rib nbr pfx =>
       {| s_tab := {| t_me := t_me (s_tab s); t_rib := rib; t_nbr := nbr; t_pfx := pfx |}; s_fib := s_fib s; s_rt := s_rt s |}
-  | FibUpdate =>
-      let (st, cs) := fib_update (s_tab s) (s_fib s) in
+  | FibUpdate ord1 ord2 =>
+      let (st, cs) := fib_update_ord ord1 ord2 (s_tab s) (s_fib s) in
       {| s_tab := s_tab s; s_fib := st; s_rt := rt_run (s_rt s) cs |}
   end.
 
